@@ -30,9 +30,13 @@ class VerifyAuthentic:
     raises = dict.fromkeys(ALLOWED, True)
     trusted = ["symbolic crypto model (DESIGN 3.3)", "utf-8/hex codecs as uninterpreted partial inverses"]
 
+    def fresh_exchange_key(ghost):
+        """every call generates its own ephemeral exchange key (never one shared between sessions)"""
+        return "x25519_sk" in ghost and len(ghost["x25519_sk"]) == 1
+
     def m1(yielded, ghost, session_id, derive):
         """first request: fresh exchange key; resume request per the Pair Resume procedure"""
-        sk = ghost["x25519_sk"][0]
+        sk = ghost["x25519_sk"][0] if "x25519_sk" in ghost else b"no fresh exchange key generated in this call"
         pub = x25519_pub(sk)
         fresh = [(6, b"\x01"), (3, pub)]
         return (
@@ -59,7 +63,7 @@ class VerifyAuthentic:
         """a full (non-resumed) success implies: M2's encrypted data opened under the key derived from this
         session's DH secret with nonce PV-Msg02; the identifier inside is the stored one; the signature
         inside verifies under the STORED long-term key over accPK | accID | iosPK of THIS session"""
-        sk = ghost["x25519_sk"][0]
+        sk = ghost["x25519_sk"][0] if "x25519_sk" in ghost else b"no fresh exchange key generated in this call"
         pub = x25519_pub(sk)
         m2 = dict(received[0])
         resumed = len(received) == 1
@@ -88,7 +92,7 @@ class VerifyAuthentic:
         """the resume shortcut is taken only if the reply says Method=Resume, carries a session id and an
         auth tag that opens (empty plaintext) under the key derived from the PREVIOUS session's secret; the
         new secret is derived from that same secret"""
-        sk = ghost["x25519_sk"][0]
+        sk = ghost["x25519_sk"][0] if "x25519_sk" in ghost else b"no fresh exchange key generated in this call"
         pub = x25519_pub(sk)
         m2 = dict(received[0])
         opens = [e for e in trace if e[0] == "open_ok"]
@@ -116,7 +120,7 @@ class VerifyAuthentic:
 
     def keys_from_this_exchange(received, ghost, result):
         """full success: derive(salt, info) = HKDF(DH(this session), salt, info) and the resume id label"""
-        sk = ghost["x25519_sk"][0]
+        sk = ghost["x25519_sk"][0] if "x25519_sk" in ghost else b"no fresh exchange key generated in this call"
         m2 = dict(received[0])
         shared = x25519_dh(sk, bytes(m2[3]))
         return len(received) == 1 or (
@@ -127,7 +131,7 @@ class VerifyAuthentic:
     def m3(pairing_data, yielded, received, ghost):
         """the controller's proof: M3 = seal(encKey, PV-Msg03, tlv[(Identifier, iosID), (Signature,
         sign(iosLTSK, iosPK | iosID | accPK))])"""
-        sk = ghost["x25519_sk"][0]
+        sk = ghost["x25519_sk"][0] if "x25519_sk" in ghost else b"no fresh exchange key generated in this call"
         pub = x25519_pub(sk)
         m2 = dict(received[0])
         enc_key = hkdf(x25519_dh(sk, bytes(m2[3])), b"Pair-Verify-Encrypt-Salt", b"Pair-Verify-Encrypt-Info", 32)
@@ -154,7 +158,7 @@ class VerifyAuthentic:
             )
         )
 
-    ensures = [m1, authenticated, resumed_knows_secret, keys_from_this_exchange, m3]
+    ensures = [fresh_exchange_key, m1, authenticated, resumed_knows_secret, keys_from_this_exchange, m3]
 
     # -- replay of refuted obligations / labelled bounded stand-in: the scenario table of DESIGN 4/C01 run
     #    against the REAL generator with an independent spec-conformant accessory (harness/hap_accessory.py)
@@ -196,4 +200,8 @@ def verify_scenarios(rounds):
             cases += 1
             if r["outcome"] != "raised":
                 failures.append({"clause": f"{tag}.{v}", "scenario": r, "expected": "an exception and no keys"})
+        r = h.run_verify_replay_across_exchanges(get_session_keys)
+        cases += 1
+        if r["outcome"] != "raised":
+            failures.append({"clause": f"{tag}.{r['variant']}", "scenario": r, "expected": "an exception and no keys"})
     return {"cases": cases, "distinct": 2 + len(h.VERIFY_BAD + h.VERIFY_M4_BAD + h.RESUME_BAD), "failures": failures, "bound": VerifyAuthentic.bound_note}
